@@ -48,6 +48,19 @@ func Build(seed int64, opt string) *Generated {
 	return &Generated{G: g, Root: root, Plan: plan, Src: src, WS: ws}
 }
 
+// BuildJSON is Build with the configuration rendered in JSON syntax
+// (ok=false if the plan is not expressible).
+func BuildJSON(seed int64, opt string) (*Generated, bool) {
+	g := Build(seed, opt)
+	js, ok := g.Plan.JSON()
+	if !ok {
+		return nil, false
+	}
+	g.WS.Paths[GenPath].Files = map[string]string{"main.tf.json": js}
+	g.Src = js
+	return g, true
+}
+
 // Make returns a fresh workspace (fresh schema objects) for (seed, opt).
 func Make(seed int64, opt string) (*core.Workspace, error) {
 	return Build(seed, opt).WS, nil
